@@ -85,8 +85,10 @@ def admissible(desc, spec, seed):
         order = np.argsort(np.abs(w - desc.get('sigma', 0.0)))
         w, V = np.real(w[order]), np.real(V[:, order])
         k = desc.get('nmodes', 3)
-        if np.min(np.abs(np.diff(w[:k + 2]))) < 0.02 * abs(w[k]):
-            return 'sparse pencil: eigenvalues near sigma not simple enough'
+        for i in range(k):
+            others = np.delete(w, i)
+            if np.min(np.abs(others - w[i])) < 0.02 * abs(w[k]):
+                return 'sparse pencil: a requested eigenvalue is not simple enough'
         for i in range(k):
             v = V[:, i] / np.sqrt(V[:, i] @ M @ V[:, i])
             if abs(np.mean(v)) < 0.02 * np.max(np.abs(v)):
